@@ -59,8 +59,9 @@ Failing(e) ==
         ELSE {})
   \cup (IF e.res # "ok" /\ a.op \notin {"ior", "ixor"} /\ ~SameSet(pre, post) THEN {"atomic"} ELSE {})
 
-BadIdx == {i \in 1..N : Failing(Events[i]) # {}}
-Bad == UNION {{[i |-> i, c |-> c, d |-> ""] : c \in Failing(Events[i])} : i \in BadIdx}
+F == [i \in 1..N |-> Failing(Events[i])]
+BadIdx == {i \in 1..N : F[i] # {}}
+Bad == UNION {{[i |-> i, c |-> c, d |-> ""] : c \in F[i]} : i \in BadIdx}
 Ante == [strict_algebra |-> Cardinality({i \in 1..N : Events[i].a.op \in BinOps /\ Strict(Events[i].cfg, Events[i].pre.s, Events[i].a.o)}),
          loose_algebra |-> Cardinality({i \in 1..N : Events[i].a.op \in BinOps /\ ~Strict(Events[i].cfg, Events[i].pre.s, Events[i].a.o)}),
          enforce_reject |-> Cardinality({i \in 1..N : Events[i].a.op = "add" /\ Events[i].res = "ValueError"}),
